@@ -78,7 +78,7 @@ func (vc *VC) heapTypeInv(c *Component, h string, blk int, bound string) {
 	// reference stored in h was allocated before it. Cells get the full (deep)
 	// invariant; arrays of structs/interfaces only when no bound is given are
 	// skipped (their invariants are asserted where a value is loaded).
-	if bound == "" || (c.IsArr && !strings.HasPrefix(h, "H0_")) {
+	if bound == "" {
 		switch T.Underlying().(type) {
 		case *types.Basic, *types.Slice, *types.Pointer:
 		default:
